@@ -129,6 +129,7 @@ def one(req: dict, variant: str) -> dict:
 
         sys.stderr, sys.stdout = _Capture(2), _Capture(1)
         outcome = "ok"
+        msg = ""
         try:
             if req.get("api") == "parse":
                 from bitproto.parser import parse
@@ -168,16 +169,24 @@ def one(req: dict, variant: str) -> dict:
                     outcome = "sysexit:%s" % ((int(ret) & 0xFF) if isinstance(ret, int) else 1,)  # what `sys.exit(run_bitproto())` would do
         except BaseException as e:  # noqa
             outcome = classify(e)
+            msg = str(e)[:200]
         finally:
             os._exit = old_exit
             sys.argv = old_argv
+            try:
+                sys_err_text = sys.stderr.getvalue()[-2000:]
+            except Exception:
+                sys_err_text = ""
             sys.stderr, sys.stdout = old_err, old_out
         outputs = {}
         od = os.path.join(root, "out")
         for f in sorted(os.listdir(od)):
             with open(os.path.join(od, f), "rb") as fh:
                 outputs[f] = _sha(fh.read())
-        return {"outcome": outcome, "outputs": outputs}
+        res = {"outcome": outcome, "outputs": outputs}
+        if "recursion limit" in msg or (outcome.startswith(("exit:", "sysexit:")) and "recursion limit" in sys_err_text):
+            res["resource_limit"] = True  # see oracles.c18_violations
+        return res
     finally:
         os.chdir(old_cwd)
         shutil.rmtree(top, ignore_errors=True)
